@@ -73,10 +73,24 @@ CHECKS["C03"] = dict(
          "nine crash sites on malformed input are listed known findings with witnesses.",
     design_ref="5/C03", engine="FlattenTrace")
 
+CHECKS["C04"] = dict(
+    category="model_checking",
+    technique="executable TLA+ control semantics of GIR (GIRControl) run by TLC over the GIR rows and the CFG that the real lian run produced for exhaustively enumerated control skeletons in 7 frontends",
+    text="GIRControl interprets the flattened GIR that the current frontends emitted (block structure, compound statements, loops with "
+         "init/prebody/update, break/continue/return, try/catch/else/finally, switch, nested declarations) with every test, case selection "
+         "and raise as a nondeterministic choice (loops <= 2 iterations); lian's CFG for the same method is a constant of the case and every "
+         "step of every behaviour must be one of its edges, including the step to the exit node.",
+    note="Skeletons: exhaustive to size 3 (quick) / 4 (thorough) x 7 languages plus construct-specific exhaustive families (switch, try, "
+         "for/do-while with jumps) and a seeded sample of the next size; semantics of GIR control as documented in 3-2.gir.md (assumptions in the "
+         "evidence file); three construct classes are listed known findings.",
+    design_ref="5/C04", engine="GIRControl")
+
 NOT_YET = {
 }
 
 ENGINES = [
+    dict(name="GIRControl", path="specs/GIRControl.tla harness/c04.py harness/skeleton.py harness/girjson.py harness/lianrun.py",
+         serves_properties=["C04"], kind_free_text="executable TLA+ semantics of GIR control flow, TLC as interpreter/explorer"),
     dict(name="FlattenTrace", path="specs/FlattenTrace.tla harness/c03.py harness/corpus.py harness/lianrun.py",
          serves_properties=["C03"], kind_free_text="TLA+ trace spec over emitted GIR rows, TLC"),
     dict(name="Workspace", path="specs/Workspace.tla specs/WorkspaceTrace.tla harness/c18.py",
